@@ -10,7 +10,11 @@ package main
 // runs without text stay where they are, everything else is compared field by field.
 
 import (
+	"archive/zip"
+	"bytes"
 	"fmt"
+	"io"
+	"os"
 	"path/filepath"
 	"reflect"
 	"regexp"
@@ -802,6 +806,95 @@ func runC18(cfg *runCfg) error {
 		}
 		_ = utf8.RuneLen
 	}
+	// ---- templates with picture placeholders over a base that was opened from a file holding media of its own (media
+	// that only a header refers to, or that nothing refers to): the pictures of the rendering get part names of their
+	// own, every part of the base is in the rendered document as it was
+	for ci := 0; ci < cfg.n/10+5; ci++ {
+		cr := r.fork()
+		d := document.New()
+		d.AddParagraph("Report {{v0}}")
+		nph := cr.rangeI(1, 3)
+		for k := 0; k < nph; k++ {
+			d.AddParagraph(fmt.Sprintf("{{#image pic%d}}", k))
+		}
+		d.AddHeader(document.HeaderFooterTypeDefault, "Header {{v0}}")
+		nOwn := cr.intn(2)
+		for k := 0; k < nOwn; k++ {
+			w, h := imgDims(20 + k)
+			d.AddImageFromData(imageBytes("png", 20+k), "own.png", document.ImageFormatPNG, w, h, nil)
+		}
+		data, err := d.ToBytes()
+		if err != nil {
+			fail(-300000-ci, "saves", "save_error", err.Error(), nil)
+			continue
+		}
+		// media the body does not refer to, numbered after the body's own pictures
+		extra := map[string][]byte{}
+		for k, n := 0, cr.rangeI(1, 2); k < n; k++ {
+			extra[fmt.Sprintf("word/media/image%d.png", nOwn+1+k)] = imageBytes("png", 30+k)
+		}
+		if cr.chance(50) {
+			for name := range extra {
+				extra["word/_rels/header1.xml.rels"] = []byte(`<?xml version="1.0" encoding="UTF-8" standalone="yes"?><Relationships xmlns="http://schemas.openxmlformats.org/package/2006/relationships"><Relationship Id="rId1" Type="http://schemas.openxmlformats.org/officeDocument/2006/relationships/image" Target="media/` + strings.TrimPrefix(name, "word/media/") + `"/></Relationships>`)
+				break
+			}
+		}
+		data = addZipParts(data, extra)
+		feats["picture placeholders over a base with media the body does not refer to"]++
+		path := filepath.Join(cfg.out, "c18pic.docx")
+		if e := os.WriteFile(path, data, 0644); e != nil {
+			continue
+		}
+		tr := document.NewTemplateRenderer()
+		tr.SetLogging(false)
+		if _, e := tr.LoadTemplateFromFile("p", path); e != nil {
+			fail(-300000-ci, "loads", "load_error", e.Error(), nil)
+			continue
+		}
+		td := document.NewTemplateData()
+		td.SetVariable("v0", "x")
+		for k := 0; k < nph; k++ {
+			td.SetImageFromData(fmt.Sprintf("pic%d", k), imageBytes("png", 40+k), nil)
+		}
+		out, err := tr.RenderTemplate("p", td)
+		res.Evaluations++
+		if err != nil || out == nil {
+			fail(-300000-ci, "renders", "render_error", fmt.Sprint(err), nil)
+			continue
+		}
+		b1, e1 := out.ToBytes()
+		if e1 != nil {
+			fail(-300000-ci, "saves", "save_error", e1.Error(), nil)
+			continue
+		}
+		p0, _ := partsOf(data)
+		p1, _ := partsOf(b1)
+		for name, data0 := range p0 {
+			if !strings.HasPrefix(name, "word/media/") && name != "word/_rels/header1.xml.rels" {
+				continue
+			}
+			if data1, ok := p1[name]; !ok {
+				fail(-300000-ci, "parts_kept", "part_lost", name+" is missing from the rendered document", nil)
+			} else if !bytes.Equal(data0, data1) {
+				fail(-300000-ci, "parts_kept", "part_changed:media", name+" of the base document was overwritten by the rendering", nil)
+			}
+		}
+		nMedia := 0
+		for name := range p1 {
+			if strings.HasPrefix(name, "word/media/") {
+				nMedia++
+			}
+		}
+		nExtra := 0
+		for name := range extra {
+			if strings.HasPrefix(name, "word/media/") {
+				nExtra++
+			}
+		}
+		if want := nOwn + nExtra + nph; nMedia < want {
+			fail(-300000-ci, "parts_kept", "picture_parts", fmt.Sprintf("the rendered document holds %d media parts, the base had its own and %d pictures were placed (expected at least %d)", nMedia, nph, want), nil)
+		}
+	}
 	// ---- single paragraphs for the correspondence with Model/DocTemplate.v
 	var cases []string
 	vars := []string{"v0", "v1", "v2", "v3", "missing"}
@@ -935,4 +1028,41 @@ func runC18(cfg *runCfg) error {
 	res.Shards = writeShardsPlain(cfg.out, "c18cases", "From Coq Require Import List NArith Bool.\nFrom WZ Require Import Model.DocTemplate Corr.DocTemplateCorr.\nImport ListNotations.\n", "case", "mismatches", cases, 150)
 	res.write(cfg.out)
 	return nil
+}
+
+// addZipParts: the package with the given parts added (or replaced)
+func addZipParts(data []byte, extra map[string][]byte) []byte {
+	zr, err := zip.NewReader(bytes.NewReader(data), int64(len(data)))
+	if err != nil {
+		return data
+	}
+	var out bytes.Buffer
+	zw := zip.NewWriter(&out)
+	for _, f := range zr.File {
+		if _, repl := extra[f.Name]; repl {
+			continue
+		}
+		rc, err := f.Open()
+		if err != nil {
+			return data
+		}
+		b, _ := io.ReadAll(rc)
+		rc.Close()
+		if f.Name == "[Content_Types].xml" && !bytes.Contains(b, []byte(`Extension="png"`)) {
+			b = bytes.Replace(b, []byte("</Types>"), []byte(`<Default Extension="png" ContentType="image/png"/></Types>`), 1)
+		}
+		w, _ := zw.Create(f.Name)
+		w.Write(b)
+	}
+	var names []string
+	for n := range extra {
+		names = append(names, n)
+	}
+	sort.Strings(names)
+	for _, n := range names {
+		w, _ := zw.Create(n)
+		w.Write(extra[n])
+	}
+	zw.Close()
+	return out.Bytes()
 }
